@@ -388,7 +388,7 @@ End Case.
 (* ---------------------------------------------------------------- soundness of the boolean form *)
 Lemma check0_sound c : case_wf0 c = true -> in_domain0 c = true -> C13_check0 c (model0 c) = true.
 Proof.
-  destruct c as [md its | md its ps | md its perms | md its lim reps | md bk keys h]; [| | | |discriminate];
+  destruct c as [md its | md its ps | md its perms | md its lim reps | md mdc br rk ck h | md bk keys h]; [| | | |discriminate|discriminate];
     cbn [case_wf0 in_domain0 model0 C13_check0];
     destruct (parse_sort md) as [[m rv]|] eqn:Eps; auto.
   - (* ax *)
@@ -434,11 +434,64 @@ Proof.
     apply forallb_forall. intros o Ho. apply repeat_spec in Ho. subst o. apply list_nat_eqb_refl.
 Qed.
 
-(* collectors over histories reduce to the sort of their final items *)
+(* ---- tables: key indices of what is left, positions translated back and forth ---- *)
+Lemma present_lines_In f l x : In x (map fst (present_lines f l)) -> In x l.
+Proof.
+  induction l as [|i r IH]; cbn; [auto|]. destruct (f i); cbn; [intros [<-|H]; auto|auto].
+Qed.
+Lemma present_lines_NoDup f l : NoDup l -> NoDup (map fst (present_lines f l)).
+Proof.
+  induction l as [|i r IH]; cbn; intros H; [constructor|]. inversion H as [|? ? Hn Hr]; subst.
+  destruct (f i); cbn; [|auto]. constructor; [|auto]. intros Hin. apply Hn. eapply present_lines_In; eauto.
+Qed.
+Lemma table_view_NoDup mdc br rk ck h : NoDup (map fst (table_view mdc br rk ck h)).
+Proof. unfold table_view, row_view, col_view. destruct br; apply present_lines_NoDup, seq_NoDup. Qed.
+
+Lemma pos_of_nth : forall idx p, NoDup idx -> (p < List.length idx)%nat -> pos_of (nth p idx 0%nat) idx = p.
+Proof.
+  induction idx as [|y r IH]; intros p Hnd Hp; cbn in Hp; [lia|].
+  inversion Hnd as [|? ? Hn Hr]; subst. destruct p as [|p]; cbn.
+  - now rewrite Nat.eqb_refl.
+  - destruct (Nat.eqb_spec (nth p r 0%nat) y) as [E|_].
+    + exfalso. apply Hn. rewrite <- E. apply nth_In. lia.
+    + f_equal. apply IH; auto. lia.
+Qed.
+
+(* collectors over histories reduce to the sort of their final items; tables answer in key indices *)
 Theorem C13_check_sound_proof c : case_wf c = true -> in_domain c = true -> C13_check c (model c) = true.
 Proof.
-  unfold case_wf, in_domain, C13_check, model. intros Hwf Hdom.
-  apply andb_true_iff in Hwf as [Hwf _]. now apply check0_sound.
+  unfold case_wf, in_domain. intros Hwf Hdom. apply andb_true_iff in Hwf as [Hwf _].
+  pose proof (check0_sound (norm c) Hwf Hdom) as Hs.
+  destruct c as [md its | md its ps | md its perms | md its lim reps | md mdc br rk ck h | md bk keys h];
+    try exact Hs.
+  unfold C13_check, model.
+  set (v := table_view mdc br rk ck h) in *. set (idx := map fst v).
+  set (its := view_items br rk ck v) in *.
+  assert (Hlen : List.length its = List.length idx) by (unfold its, idx, view_items; now rewrite !map_length).
+  assert (Hk : List.length v = List.length idx) by (unfold idx; now rewrite map_length).
+  assert (Hndi : NoDup idx) by apply table_view_NoDup.
+  change (norm (ITable md mdc br rk ck h)) with (ISort md its [seq 0 (List.length v)]) in *.
+  cbn [model0 case_wf0 in_domain0] in *.
+  destruct (parse_sort md) as [[m rv]|] eqn:Eps; [|exact Hs].
+  destruct (mode_pure m its) as [f|] eqn:Ef; [|discriminate].
+  apply andb_true_iff in Hwf as [Hwf Hperms]. pose proof (names_distinct its Hwf) as Hnd.
+  cbn [map forallb] in Hperms. rewrite andb_true_r in Hperms.
+  cbn [map] in *.
+  pose proof (model_sort m rv its f Ef Hnd (seq 0 (List.length v)) Hperms) as Hms.
+  unfold c', pairup in Hms. rewrite Hms in *. clear Hms.
+  set (o := map fst (Sx rv its f)) in *.
+  assert (Ho : forall p, In p o -> (p < List.length idx)%nat).
+  { intros p Hp. rewrite <- Hlen.
+    apply (Permutation_in p (Permutation_sym (Sx_fst_perm rv its f))) in Hp. now apply in_seq in Hp. }
+  rewrite list_nat_eqb_refl. cbn [andb].
+  assert (E1 : forallb (fun x => existsb (Nat.eqb x) idx) (map (fun p => nth p idx 0%nat) o) = true).
+  { apply forallb_forall. intros x Hx. apply in_map_iff in Hx as [p [<- Hp]].
+    apply existsb_exists. exists (nth p idx 0%nat). split; [apply nth_In; now apply Ho|apply Nat.eqb_refl]. }
+  rewrite E1. cbn [andb].
+  assert (E2 : map (fun x => pos_of x idx) (map (fun p => nth p idx 0%nat) o) = o).
+  { rewrite map_map. rewrite <- (map_id o) at 2. apply map_ext_in. intros p Hp.
+    apply pos_of_nth; auto. }
+  rewrite E2. exact Hs.
 Qed.
 
 (* the model's view of a collector depends on the history only through the final totals; these do
@@ -467,3 +520,26 @@ Fixpoint drop_reads (h : list ev) : list ev :=
   end.
 Lemma total_drop_reads h i : total (drop_reads h) i = total h i.
 Proof. induction h as [|[k inc|] r IH]; cbn; auto. now rewrite IH. Qed.
+
+(* ---- the views of a table depend on the cells only (through cget) ---- *)
+Lemma line_ext g1 g2 n : (forall i, g1 i = g2 i) -> line g1 n = line g2 n.
+Proof. intros H. unfold line. now rewrite (map_ext g1 g2 H). Qed.
+Lemma present_lines_ext f1 f2 l : (forall i, f1 i = f2 i) -> present_lines f1 l = present_lines f2 l.
+Proof. intros H. induction l as [|i r IH]; cbn; [reflexivity|]. now rewrite H, IH. Qed.
+Lemma views_ext cs1 cs2 ncols nrows : (forall c r, cget cs1 c r = cget cs2 c r) ->
+  row_view cs1 ncols nrows = row_view cs2 ncols nrows /\ col_view cs1 ncols nrows = col_view cs2 ncols nrows.
+Proof.
+  intros H. unfold row_view, col_view. split; apply present_lines_ext; intros i; apply line_ext; intros j; apply H.
+Qed.
+
+Lemma table_final_cells md mdc br rk ck h1 h2 :
+  (forall c r, cget (final_cells mdc ck (List.length ck) (List.length rk) h1) c r =
+               cget (final_cells mdc ck (List.length ck) (List.length rk) h2) c r) ->
+  model (ITable md mdc br rk ck h1) = model (ITable md mdc br rk ck h2).
+Proof.
+  intros H.
+  assert (E : table_view mdc br rk ck h1 = table_view mdc br rk ck h2).
+  { unfold table_view. destruct (views_ext _ _ (List.length ck) (List.length rk) H) as [E1 E2].
+    destruct br; assumption. }
+  unfold model, norm. now rewrite E.
+Qed.
